@@ -17,8 +17,13 @@ def make_chart(family):
     react = {(0, SIG[n]): ("H",) for n in SCRIPT}
     act = {(0, SIG[n]): list(a) for n, a in SCRIPT.items() if a}
     t = Table((-1,), react=react, act=act, budget=100000)
-    use(t, family)
+    live = family == "spied+live"
+    use(t, "spied" if live else family)
     h = charts.new_host("queued", **({"instrumented": False} if family == "plain" else {}))
+    if live:        # live spy and live trace on (callbacks swallow the lines)
+        h.live_spy = h.live_trace = True
+        h.register_live_spy_callback(lambda line: None)
+        h.register_live_trace_callback(lambda line: None)
     h.start_at(t.S[0])
     t.log.clear()
     return t, h
@@ -163,7 +168,7 @@ def bfs(pid, alphabet, depth, family, first_ops):
     return len(seen), n_trans, viol, samples
 
 
-def run_bfs(res, pid, alphabet, depth, families=("spied", "plain")):
+def run_bfs(res, pid, alphabet, depth, families=("spied", "plain", "spied+live")):
     tasks = []
     for fam in families:
         for op in alphabet:
